@@ -23,9 +23,13 @@ def grid_lattice(tier, mult4=False, big=True):
     else:
         cut += [k / 100.0 for k in range(1, 1501) if k % 10]
         nrs = list(range(3, 66)) + [100, 101, 120, 400, 500, 1000, 1001, 1200, 1500, 2000, 2001]
+    cut += [3.141592653589793, 0.6666666666666666, 6.283185307179586, 12.3456789]      # cutoffs that are not short decimals
     if mult4:
         nrs = [n for n in nrs if n % 4 == 0 and n > 4]
-    return [(c, n) for c in cut for n in nrs]
+    big = [(10.0, 10001), (12.3456789, 20000), (6.5, 16384), (3.141592653589793, 5000)]       # very large row counts
+    if mult4:
+        big = [(c, n) for c, n in big if n % 4 == 0]
+    return [(c, n) for c in cut for n in nrs] + big
 
 
 def model_grids(tier, mult4=False):
